@@ -67,6 +67,45 @@ func c09LocalDef(f *kit.Func, e ast.Expr) ast.Expr {
 	return e
 }
 
+// c09AlgAtom recognises `<tok>.Method.Alg() == "HS256"` and `<tok>.Method ==
+// jwt.SigningMethodHS256` (either operand order, == or !=).
+func c09AlgAtom(info *types.Info, e ast.Expr, isTok func(ast.Expr) bool) (neg, ok bool) {
+	x, y, op, isCmp := kit.CmpAtom(e)
+	if !isCmp || (op != token.EQL && op != token.NEQ) {
+		return false, false
+	}
+	method := func(z ast.Expr) bool { // <tok>.Method
+		ts, ok := ast.Unparen(z).(*ast.SelectorExpr)
+		if !ok || !isTok(ts.X) {
+			return false
+		}
+		v, ok := kit.ObjOf(info, ts).(*types.Var)
+		return ok && v.IsField() && v.Pkg() != nil && strings.HasPrefix(v.Pkg().Path(), c09JWTPfx)
+	}
+	isAlg := func(z ast.Expr) bool {
+		call, ok := ast.Unparen(z).(*ast.CallExpr)
+		if !ok || !c09IsJWT(kit.Callee(info, call), "Alg") {
+			return false
+		}
+		ms, ok := ast.Unparen(call.Fun).(*ast.SelectorExpr)
+		return ok && method(ms.X)
+	}
+	for i := 0; i < 2; i++ {
+		if isAlg(x) {
+			if v, ok := kit.ConstString(info, y); ok && v == "HS256" {
+				return op == token.NEQ, true
+			}
+		}
+		if method(x) {
+			if v, ok := kit.ObjOf(info, y).(*types.Var); ok && v.Pkg() != nil && strings.HasPrefix(v.Pkg().Path(), c09JWTPfx) && v.Name() == "SigningMethodHS256" {
+				return op == token.NEQ, true
+			}
+		}
+		x, y = y, x
+	}
+	return false, false
+}
+
 func c09JWT(c *kit.Ctx, a *c09Anchors) {
 	r3 := c.Rule("R3", "JWT validation conjuncts, key agreement, issuance parameters", 7)
 
@@ -86,6 +125,7 @@ func c09JWT(c *kit.Ctx, a *c09Anchors) {
 				parse = call
 			}
 		}
+		algInKey := false // the key function only hands out the key for HS256
 		fl := newC09Flow(f)
 		fl.roles = func(call *ast.CallExpr) []string {
 			if call == parse {
@@ -102,28 +142,8 @@ func c09JWT(c *kit.Ctx, a *c09Anchors) {
 					return "tv", false, true
 				}
 			}
-			// token.Method.Alg() == "HS256"
-			if x, y, op, ok := kit.CmpAtom(e); ok && (op == token.EQL || op == token.NEQ) {
-				isAlg := func(z ast.Expr) bool {
-					call, ok := ast.Unparen(z).(*ast.CallExpr)
-					if !ok || !c09IsJWT(kit.Callee(info, call), "Alg") {
-						return false
-					}
-					ms, ok := ast.Unparen(call.Fun).(*ast.SelectorExpr) // <tok>.Method.Alg
-					if !ok {
-						return false
-					}
-					ts, ok := ast.Unparen(ms.X).(*ast.SelectorExpr) // <tok>.Method
-					return ok && isTok(ts.X, s)
-				}
-				if !isAlg(x) {
-					x, y = y, x
-				}
-				if isAlg(x) {
-					if v, ok := kit.ConstString(info, y); ok && v == "HS256" {
-						return "alg", op == token.NEQ, true
-					}
-				}
+			if neg, ok := c09AlgAtom(info, e, func(z ast.Expr) bool { return isTok(z, s) }); ok {
+				return "alg", neg, true
 			}
 			return "", false, false
 		}
@@ -148,6 +168,78 @@ func c09JWT(c *kit.Ctx, a *c09Anchors) {
 				return true
 			})
 			return s
+		}
+		// (b) key function
+		ok2 := r3.Ob(f, parse, "verification key", "the key function handed to jwt.Parse returns, with a nil error, only the key field that the issuer signs with")
+		var kf *kit.Func
+		if len(parse.Args) > 0 {
+			karg := ast.Unparen(parse.Args[len(parse.Args)-1])
+			if lit, ok := karg.(*ast.FuncLit); ok {
+				kf = c.P.LitFunc("api", lit)
+			} else if fn, ok := kit.ObjOf(info, karg).(*types.Func); ok {
+				kf = c.P.FuncOf(fn)
+			} else if v, ok := kit.ObjOf(info, karg).(*types.Var); ok {
+				kf = f.LocalClosure(v)
+			}
+		}
+		if kf == nil || kf.Body == nil {
+			ok2.Undecided("key function of %s not resolvable", f.Str(parse))
+		} else {
+			c.Analysed(kf)
+			kfl := newC09Flow(kf)
+			kinit := kit.NewS()
+			for _, p := range kf.Params() {
+				if pt, ok := p.Type().(*types.Pointer); ok {
+					if n, ok := types.Unalias(pt.Elem()).(*types.Named); ok && n.Obj().Pkg() != nil && strings.HasPrefix(n.Obj().Pkg().Path(), c09JWTPfx) && n.Obj().Name() == "Token" {
+						kinit = kinit.Set("bv:"+kit.VarID(p), "jtok")
+					}
+				}
+			}
+			kfl.atom = func(e ast.Expr, s kit.S) (string, bool, bool) {
+				if neg, ok := c09AlgAtom(kf.Info(), e, func(z ast.Expr) bool { return kfl.roleOf(z, s) == "jtok" }); ok {
+					return "alg", neg, true
+				}
+				return "", false, false
+			}
+			kst := kfl.st
+			kres := kfl.run(c, kinit)
+			nret := 0
+			badk := ""
+			algInKey = true
+			for _, e := range kres.Exits {
+				if e.Return == nil || len(e.Return.Results) != 2 {
+					continue
+				}
+				if kst.ReturnsNil(e.Return, e.State) == "nonnil" || kit.IsNilIdent(kf.Info(), e.Return.Results[0]) {
+					continue // no key handed out: the library refuses the token
+				}
+				nret++
+				if e.State.Get("a:alg") != "T" {
+					algInKey = false
+				}
+				sel, ok := ast.Unparen(e.Return.Results[0]).(*ast.SelectorExpr)
+				var fld *types.Var
+				if ok {
+					fld, _ = kit.ObjOf(kf.Info(), sel).(*types.Var)
+				}
+				if fld == nil || !fld.IsField() {
+					badk = "returns `" + kf.Str(e.Return.Results[0]) + "` instead of a key field"
+					continue
+				}
+				if verifyKey != nil && verifyKey != fld {
+					badk = "returns different key fields"
+				}
+				verifyKey = fld
+			}
+			switch {
+			case badk != "":
+				ok2.Violation("key function %s %s", kf.Name, badk)
+			case nret == 0:
+				ok2.Violation("key function %s never returns a key", kf.Name)
+			}
+			if nret == 0 {
+				algInKey = false
+			}
 		}
 		res := fl.run(c, kit.NewS())
 		o := r3.Ob(f, parse, "validator truth", "answers true only for a verified token (jwt.Parse error nil / token.Valid) with Method.Alg() == \"HS256\"; the token is not dereferenced before the error test")
@@ -177,8 +269,8 @@ func c09JWT(c *kit.Ctx, a *c09Anchors) {
 				if s.Get("a:perr") != "F" && s.Get("a:tv") != "T" {
 					miss = append(miss, "a verified token (parse error known nil, or token.Valid)")
 				}
-				if s.Get("a:alg") != "T" {
-					miss = append(miss, "alg == HS256")
+				if s.Get("a:alg") != "T" && !algInKey {
+					miss = append(miss, "alg == HS256 (neither here nor in the key function)")
 				}
 				if len(miss) > 0 && bad == "" {
 					bad = "`" + f.Str(e.Return) + "` at " + f.At(e.Return) + " can answer true without: " + strings.Join(miss, ", ")
@@ -197,56 +289,6 @@ func c09JWT(c *kit.Ctx, a *c09Anchors) {
 			o.OK("every true answer carries: verified token ∧ alg == HS256")
 		}
 
-		// (b) key function
-		ok2 := r3.Ob(f, parse, "verification key", "the key function handed to jwt.Parse returns, with a nil error, only the key field that the issuer signs with")
-		var kf *kit.Func
-		if len(parse.Args) > 0 {
-			karg := ast.Unparen(parse.Args[len(parse.Args)-1])
-			if lit, ok := karg.(*ast.FuncLit); ok {
-				kf = c.P.LitFunc("api", lit)
-			} else if fn, ok := kit.ObjOf(info, karg).(*types.Func); ok {
-				kf = c.P.FuncOf(fn)
-			} else if v, ok := kit.ObjOf(info, karg).(*types.Var); ok {
-				kf = f.LocalClosure(v)
-			}
-		}
-		if kf == nil || kf.Body == nil {
-			ok2.Undecided("key function of %s not resolvable", f.Str(parse))
-		} else {
-			c.Analysed(kf)
-			kst := &kit.Std{F: kf}
-			kres := c.P.Graph(kf).Run(kit.NewS(), kst.Client())
-			nret := 0
-			badk := ""
-			for _, e := range kres.Exits {
-				if e.Return == nil || len(e.Return.Results) != 2 {
-					continue
-				}
-				if kst.ReturnsNil(e.Return, e.State) == "nonnil" {
-					continue
-				}
-				nret++
-				sel, ok := ast.Unparen(e.Return.Results[0]).(*ast.SelectorExpr)
-				var fld *types.Var
-				if ok {
-					fld, _ = kit.ObjOf(kf.Info(), sel).(*types.Var)
-				}
-				if fld == nil || !fld.IsField() {
-					badk = "returns `" + kf.Str(e.Return.Results[0]) + "` instead of a key field"
-					continue
-				}
-				if verifyKey != nil && verifyKey != fld {
-					badk = "returns different key fields"
-				}
-				verifyKey = fld
-			}
-			switch {
-			case badk != "":
-				ok2.Violation("key function %s %s", kf.Name, badk)
-			case nret == 0:
-				ok2.Violation("key function %s never returns a key", kf.Name)
-			}
-		}
 		// claim key read for the user id
 		ast.Inspect(f.Body, func(n ast.Node) bool {
 			ix, ok := n.(*ast.IndexExpr)
@@ -318,6 +360,14 @@ func c09JWT(c *kit.Ctx, a *c09Anchors) {
 				for _, z := range []ast.Expr{x, y} {
 					if v, ok := kit.ConstString(info, z); ok && v == "Bearer" {
 						return "bearer", op == token.NEQ, true
+					}
+				}
+			}
+			// strings.EqualFold(x, "Bearer") / strings.HasPrefix(h, "Bearer ")
+			if call, ok := ast.Unparen(e).(*ast.CallExpr); ok && len(call.Args) == 2 && kit.CallIs(info, call, "strings.EqualFold", "strings.HasPrefix") {
+				for _, z := range call.Args {
+					if v, ok := kit.ConstString(info, z); ok && strings.EqualFold(strings.TrimSpace(v), "Bearer") {
+						return "bearer", false, true
 					}
 				}
 			}
@@ -443,27 +493,72 @@ func c09JWT(c *kit.Ctx, a *c09Anchors) {
 		if ev, ok := claim["exp"]; !ok {
 			oExp.Violation("the claims of %s set no `exp`: issued tokens never expire", f.Name)
 		} else {
-			future := false
+			// the value, with local variables replaced by their definitions
+			exprs := []ast.Expr{ev}
 			ast.Inspect(ev, func(n ast.Node) bool {
-				call, ok := n.(*ast.CallExpr)
-				if !ok || !kit.CallIs(info, call, "time.(Time).Add") || len(call.Args) != 1 {
-					return true
-				}
-				sel, _ := ast.Unparen(call.Fun).(*ast.SelectorExpr)
-				if sel == nil {
-					return true
-				}
-				if now, ok := ast.Unparen(sel.X).(*ast.CallExpr); ok && kit.CallIs(info, now, "time.Now") {
-					if d, ok := kit.ConstInt(info, call.Args[0]); ok && d > 0 {
-						future = true
+				if id, ok := n.(*ast.Ident); ok {
+					if d := c09LocalDef(f, id); d != ast.Expr(id) {
+						exprs = append(exprs, d)
 					}
 				}
 				return true
 			})
-			if future {
+			verdict := ""
+			for _, x := range exprs {
+				ast.Inspect(x, func(n ast.Node) bool {
+					switch y := n.(type) {
+					case *ast.CallExpr:
+						if !kit.CallIs(info, y, "time.(Time).Add") || len(y.Args) != 1 {
+							return true
+						}
+						sel, _ := ast.Unparen(y.Fun).(*ast.SelectorExpr)
+						if sel == nil {
+							return true
+						}
+						if now, ok := ast.Unparen(sel.X).(*ast.CallExpr); ok && kit.CallIs(info, now, "time.Now") {
+							if d, ok := kit.ConstInt(info, y.Args[0]); ok {
+								if d > 0 {
+									verdict = "future"
+								} else if verdict == "" {
+									verdict = "past"
+								}
+							}
+						}
+					case *ast.BinaryExpr:
+						// time.Now().Unix() + k
+						if y.Op != token.ADD && y.Op != token.SUB {
+							return true
+						}
+						hasNow := false
+						ast.Inspect(y.X, func(z ast.Node) bool {
+							if cz, ok := z.(*ast.CallExpr); ok && kit.CallIs(info, cz, "time.Now") {
+								hasNow = true
+							}
+							return true
+						})
+						if k, ok := kit.ConstInt(info, y.Y); ok && hasNow {
+							if (k > 0) == (y.Op == token.ADD) && k != 0 {
+								verdict = "future"
+							} else if verdict == "" {
+								verdict = "past"
+							}
+						}
+					}
+					return true
+				})
+			}
+			if _, isConst := kit.ConstInt(info, ev); isConst {
+				verdict = "const"
+			}
+			switch verdict {
+			case "future":
 				oExp.OK("exp = %s", f.Str(ev))
-			} else {
-				oExp.Violation("`exp` is set to `%s`, which is not time.Now() plus a positive constant: tokens are born expired or never expire", f.Str(ev))
+			case "past":
+				oExp.Violation("`exp` is set to `%s`, which does not lie after time.Now(): tokens are born expired and valid users are refused", f.Str(ev))
+			case "const":
+				oExp.Violation("`exp` is the constant `%s`: tokens never expire or are born expired", f.Str(ev))
+			default:
+				oExp.Undecided("cannot relate `exp` = `%s` to time.Now()", f.Str(ev))
 			}
 		}
 		// user id claim
@@ -475,19 +570,22 @@ func c09JWT(c *kit.Ctx, a *c09Anchors) {
 			v, ok := claim[rk[0]]
 			isParam := false
 			if ok {
-				if o := kit.ObjOf(info, v); o != nil {
-					for _, p := range f.Params() {
-						if types.Object(p) == o && c09IsString(p.Type()) {
-							isParam = true
+				ast.Inspect(v, func(n ast.Node) bool {
+					if id, isId := n.(*ast.Ident); isId {
+						for _, p := range f.Params() {
+							if info.Uses[id] == types.Object(p) && c09IsString(p.Type()) {
+								isParam = true
+							}
 						}
 					}
-				}
+					return true
+				})
 			}
 			switch {
 			case !ok:
 				oUID.Violation("the validator reads the user id from claim %q, which %s does not set", rk[0], f.Name)
 			case !isParam:
-				oUID.Violation("claim %q is set to `%s`, not to the user id parameter", rk[0], f.Str(v))
+				oUID.Violation("claim %q is set to `%s`, which does not depend on the user id parameter", rk[0], f.Str(v))
 			default:
 				oUID.OK("claim %q = parameter %s", rk[0], f.Str(v))
 			}
@@ -554,6 +652,33 @@ func c09JWT(c *kit.Ctx, a *c09Anchors) {
 							}
 							return true
 						})
+					}
+				}
+				// compile-time assertions `var _ I = T{}` do not instantiate anything that runs
+				for _, d := range file.Decls {
+					gd, ok := d.(*ast.GenDecl)
+					if !ok {
+						continue
+					}
+					for _, sp := range gd.Specs {
+						vs, ok := sp.(*ast.ValueSpec)
+						if !ok {
+							continue
+						}
+						blank := len(vs.Names) > 0
+						for _, nm := range vs.Names {
+							if nm.Name != "_" {
+								blank = false
+							}
+						}
+						if blank {
+							ast.Inspect(vs, func(x ast.Node) bool {
+								if id, ok := x.(*ast.Ident); ok {
+									inRecv[id] = true
+								}
+								return true
+							})
+						}
 					}
 				}
 				for id, obj := range pk.TypesInfo.Uses {
